@@ -52,6 +52,9 @@ class SynthesisDecider(ABC):
     @abc.abstractmethod
     def choose_options(self, alternatives: list[T], ctx: LocalSynthesisContext) -> T: ...
 
+    def begin_tree(self) -> None:
+        """Called when the synthesis of a new tree starts: a decider that keeps state while a tree grows drops it here."""
+
 
 class BaseDecider(SynthesisDecider):
     def __init__(self, random: RandomSource, grammar: Grammar):
@@ -203,6 +206,11 @@ class PositionIndependentGrowDecider(MaxDepthDecider):
     """PositionIndependentGrowDecider will always randomly expand one path of the tree to get to the max depth, and others randomly."""
 
     expanding: bool = True
+
+    def begin_tree(self) -> None:
+        # with a concrete starting symbol the first decision of a tree is not its first expansion: whatever the previous
+        # tree left behind must not decide how this one grows
+        self.expanding = True
 
     def choose_production_alternatives(self, ty: type, alternatives: list[type], ctx: LocalSynthesisContext) -> type:
         assert len(alternatives) > 0, "No alternatives presented"
